@@ -193,8 +193,11 @@ def cases(tier, seed):
             variants = [(4, False)]
             if sortable and sl == 'page':
                 variants.append((4, True))
-            if tier == 'thorough' and sl == 'page':
-                variants += [(1, False), (8, False), (2, sortable)]
+            elif not has_dict and sl == 'page' and ('set' in src or '{' in src or idx % 6 == 0):
+                # the sort flag must be inert for values without dicts
+                variants.append((4, True))
+            if tier == 'thorough' and sl == 'page' and idx % 2 == 0:
+                variants += [(1 + idx % 3, False), (8, sortable)]
             elif idx % 5 == 0 and sl == 'page':
                 variants.append((1 + idx % 8, False))
             for indent, sort in dict.fromkeys(variants):
